@@ -59,6 +59,10 @@ fn main() {
                 }
             }
         }
+        Some("probe-registry") => {
+            // the first thing this process does with the registry (C15 `fresh_process`): one line per id given on the command line
+            props::c15::probe_registry(&args[2..]);
+        }
         Some("gen-corpus") if args.len() >= 3 => {
             let seed: u64 = std::env::var("VERIF_SEED").ok().and_then(|s| s.trim().parse::<i128>().ok()).map(|v| v as u64).unwrap_or(0);
             props::gen_corpus(&args[2], seed);
